@@ -162,8 +162,8 @@ Section Proofs.
     destruct l as [i|i c|i]; cbn; destruct (nth_error (s_res G L s) i) as [r|] eqn:E; auto;
       assert (Hr : save_inv r) by (eapply Forall_forall; [exact H|eapply nth_error_In; exact E]).
     - pose proof (save_inv_iter i (s_shared G L s) r Hr) as Hi. destruct (iter_res i (s_shared G L s) r) as [g r']. cbn in *. now apply U.
-    - cbn. apply U; auto. destruct Hr as [I1 I2]. split; cbn; auto.
-    - cbn. apply U; auto. destruct Hr as [I1 I2]. split; cbn; auto.
+    - cbn. apply U; [exact H|]. destruct Hr as [I1 I2]. split; cbn; auto.
+    - cbn. apply U; [exact H|]. destruct Hr as [I1 I2]. split; cbn; auto.
   Qed.
 
   (* ---- a fault is local: a live, un-paused, un-stopped resource executes its cycle whatever state the others are in ---- *)
